@@ -65,9 +65,13 @@ Fixpoint trace_eqb (a b : list (N * N)) : bool :=
   | _, _ => false
   end.
 
+(* the Go trace is transported as (number of calls, checksum): string and list literals are slow to elaborate *)
+Definition trace_sum (t : list (N * N)) : N :=
+  fold_left (fun acc x => wrap64 (acc * 1000003 + fst x * 4099 + snd x + 1)) t 7.
+
 (* case = (cut, failing call, kind code, Go class, Go trace (None: not recorded), Go value (None: not compared)) *)
 Definition slice_tie_ok (op : N) (img : bytes) (addr : N) (s : selection)
-  : (Z * Z * N * N * option (list (N * N)) * option val) -> bool :=
+  : (Z * Z * N * N * option (N * N) * option val) -> bool :=
   let sbo := run0 img p_superblock in
   fun case =>
     match case with
@@ -76,7 +80,7 @@ Definition slice_tie_ok (op : N) (img : bytes) (addr : N) (s : selection)
         | Ok sb =>
             let r := slice_run op sb img addr s cut k kind in
             (oclass (fst r) =? cls) &&
-            match tr with Some t => trace_eqb (snd r) t | None => true end &&
+            match tr with Some (n, cs) => (lenN' (snd r) =? n) && (trace_sum (snd r) =? cs) | None => true end &&
             match fst r, v with Ok (Some mv), Some gv => val_eqb mv gv | _, _ => true end
         | _ => false
         end
